@@ -564,8 +564,13 @@ def reg5(ctx: Ctx) -> None:
         else:
             ctx.R.fail("REG-5", cm, fn, f"the default of option `{o}` must be {w} (found {dflt.get(o)}): every customize() call that does not mention it would switch it on", construct=f"customize default {o}={dflt.get(o)}")
     decs = [norm(d) for d in it.decorator_list]
+    # install = elaborate_frame.register(target, *inner_names) ... install(customize_it): the decorator spelled out
+    inst = {a_.targets[0].id for a_ in walk_scope(fn) if isinstance(a_, ast.Assign) and len(a_.targets) == 1 and isinstance(a_.targets[0], ast.Name) and norm(a_.value) == "elaborate_frame.register(target, *inner_names)"}
+    spelled = [c_ for c_ in walk_scope(fn) if isinstance(c_, ast.Call) and isinstance(c_.func, ast.Name) and c_.func.id in inst and len(c_.args) == 1 and norm(c_.args[0]) == it.name and not c_.keywords]
     if decs == ["elaborate_frame.register(target, *inner_names)"]:
         ctx.R.ok("REG-5", "customize_it is registered for (target, *inner_names)")
+    elif not decs and len(spelled) == 1 and not guards_of(cm, spelled[0], fn):
+        ctx.R.ok("REG-5", "customize_it is registered for (target, *inner_names) (decorator applied by an explicit call)")
     else:
         ctx.R.fail("REG-5", cm, it, "customize_it must be registered as the elaborate_frame hook for (target, *inner_names)")
     if isinstance(fn.body[-1], ast.Return) and norm(fn.body[-1].value) == "target":
